@@ -244,6 +244,26 @@ func scripted(prop string) []script {
 			{Kind: "BridgeCall", Sender: 0, Refund: 1, Coins: [][2]int64{{0, 50}}, To: 2, Data: []byte{1}},
 		}})
 	}
+	// (9) transfers started from the EVM through the real crossChain precompile: ERC-20 of the registered coin (outgoing
+	// relation, refund as ERC-20), FX as msg.value (no relation, refund in the bank), next to message-originated ones;
+	// cancel of each kind, fee increase on an EVM-originated one, execution of a batch holding one (relation deleted)
+	out = append(out, script{paramSets[1], 100000, []Op{
+		{Kind: "Observe", H: 1000},
+		{Kind: "SendP", Sender: 0, Dest: 1, Amount: 40, Fee: 5, Token: 3},
+		{Kind: "SendP", Sender: 1, Dest: 2, Amount: 30, Fee: 0, Token: 3},
+		{Kind: "SendP", Sender: 2, Dest: 0, Amount: 20, Fee: 3, Token: 0},
+		{Kind: "Send", Sender: 0, Dest: 1, Amount: 25, Fee: 4, Token: 3},
+		{Kind: "IncreaseFee", ID: 2, Who: 2, Add: 6, Token: 3, Which: 1},
+		{Kind: "Cancel", ID: 2, Who: 1},
+		{Kind: "Cancel", ID: 4, Who: 0},
+		{Kind: "Cancel", ID: 3, Who: 2},
+		{Kind: "RequestBatch", Token: 3, Which: 1, FeeRcv: 0, MinFee: 1, Auth: true},
+		{Kind: "Cancel", ID: 1, Who: 0},
+		{Kind: "BatchExecuted", Token: 3, Nonce: 1, H: 1001},
+		{Kind: "SendP", Sender: 0, Dest: 1, Amount: 7, Fee: 2, Token: 3},
+		{Kind: "Cancel", ID: 5, Who: 1},
+		{Kind: "Cancel", ID: 5, Who: 0},
+	}})
 	// (4) more than 100 entries of one token: the batch takes the 100 best, ties by descending id
 	var big []Op
 	big = append(big, Op{Kind: "Observe", H: 77})
